@@ -23,9 +23,22 @@ I1 = {'events': [dzn.event('Claim', 'in', ['Res'], [dzn.formal('a', ['T'], 'in')
                  dzn.event('Sig', 'out', ['void'], [dzn.formal('c', ['T'], 'in')])]}
 I2 = {'events': [dzn.event('Cmd', 'in', ['bool'], [dzn.formal('x', ['T'], 'in')]),
                  dzn.event('Note', 'out', ['void'], [dzn.formal('y', ['T'], 'in')])]}
-PORTS = {'ports': [dzn.port('p1', ['I1']), dzn.port('r1', ['I2'], 'requires'), dzn.port('p2', ['I1']),
-                   dzn.port('r2', ['I2'], 'requires'), dzn.port('p3', ['I1']), dzn.port('r3', ['I2'], 'requires'),
+# The port names the models and scenarios call p1..p3 / r1..r3 are look-alikes in the documents actually built: names that
+# tie under a case-insensitive or "natural" (numeric) ordering must not make the output depend on set iteration order.
+REAL = {'p1': 'p1', 'p2': 'p01', 'p3': 'P1', 'r1': 'r1', 'r2': 'r01', 'r3': 'R1'}
+PORTS = {'ports': [dzn.port(REAL['p1'], ['I1']), dzn.port(REAL['r1'], ['I2'], 'requires'), dzn.port(REAL['p2'], ['I1']),
+                   dzn.port(REAL['r2'], ['I2'], 'requires'), dzn.port(REAL['p3'], ['I1']), dzn.port(REAL['r3'], ['I2'], 'requires'),
                    dzn.port('inj', ['I2'], 'requires', True)]}
+
+
+def real_names(desc):
+    """The descriptor with the scenario's port names replaced by the names the documents use."""
+    out = dict(desc)
+    for side in ('provides', 'requires'):
+        out[side] = {k: dict(v, s=[REAL.get(n, n) for n in v['s']]) for k, v in desc[side].items()}
+    if desc.get('multiclient'):
+        out['multiclient'] = dict(desc['multiclient'], port=REAL.get(desc['multiclient']['port'], desc['multiclient']['port']))
+    return out
 
 
 def doc_a():
@@ -147,7 +160,7 @@ def build_event(doc, fct, desc, env, order=None, builder=None):
     before_m = digest(fct)
     cfg = None
     try:
-        cfg = shell.make_configuration(desc, fct, stg, order)
+        cfg = shell.make_configuration(real_names(desc), fct, stg, order)
     except Exception as exc:  # pylint: disable=broad-except
         stg.exc = exc
     before_c = digest(cfg) if cfg is not None else 'no-configuration'
